@@ -19,7 +19,7 @@ VARIANTS = {
     # name: (compiler, flags for everything, extra flags for libhtp objects only, link flags)
     'asan': ('gcc', ['-O1', '-g', '-fno-omit-frame-pointer', '-fsanitize=address,undefined', '-fno-sanitize-recover=all'], [], []),
     'plain': ('gcc', ['-O2', '-g'], [], []),
-    'cov': ('gcc', ['-O1', '-g'], ['-fsanitize-coverage=trace-pc', '-fno-builtin-memcpy', '-fno-builtin-memmove',
+    'cov': ('gcc', ['-O1', '-g', '-DHX_COV'], ['-fsanitize-coverage=trace-pc', '-fno-builtin-memcpy', '-fno-builtin-memmove',
                                    '-fno-builtin-memchr', '-fno-builtin-memset', '-fno-builtin-memcmp'],
             ['-Wl,--wrap=memcpy,--wrap=memmove,--wrap=memchr,--wrap=memset,--wrap=memcmp']),
     'tsan': ('gcc', ['-O1', '-g', '-fsanitize=thread'], [], []),
@@ -28,11 +28,11 @@ VARIANTS = {
 
 # program name -> harness sources
 PROGRAMS = {
-    'hx': ['hx_main.c', 'hx_core.c', 'hx_util.c', 'hx_alloc.c', 'hx_seg.c', 'hx_mutate.c'],
-    'en_c13': ['en_c13.c', 'hx_util.c', 'hx_alloc.c', 'hx_stub.c'],
-    'en_c12': ['en_c12.c', 'hx_util.c', 'hx_alloc.c', 'hx_stub.c'],
-    'en_c15': ['en_c15.c', 'hx_util.c', 'hx_alloc.c', 'hx_stub.c'],
-    'en_c17': ['en_c17.c', 'hx_util.c', 'hx_alloc.c', 'hx_stub.c'],
+    'hx': ['hx_main.c', 'hx_core.c', 'hx_util.c', 'hx_alloc.c', 'hx_seg.c', 'hx_mutate.c', 'hx_cost.c'],
+    'en_c13': ['en_c13.c', 'hx_util.c', 'hx_alloc.c', 'hx_stub.c', 'hx_cost.c'],
+    'en_c12': ['en_c12.c', 'hx_util.c', 'hx_alloc.c', 'hx_stub.c', 'hx_cost.c'],
+    'en_c15': ['en_c15.c', 'hx_util.c', 'hx_alloc.c', 'hx_stub.c', 'hx_cost.c'],
+    'en_c17': ['en_c17.c', 'hx_util.c', 'hx_alloc.c', 'hx_stub.c', 'hx_cost.c'],
 }
 EXTRA_PROGRAMS = {}   # filled by other modules: name -> (sources, extra cflags, extra libs)
 
